@@ -4,6 +4,8 @@ import (
 	"fmt"
 	"go/token"
 	"go/types"
+	"sort"
+	"strings"
 
 	"golang.org/x/tools/go/ssa"
 
@@ -44,6 +46,24 @@ func init() {
 				{File: "internal/flood/flood.go", Old: "\thops := len(path)\n\tif len(seenBy) > hops {\n\t\thops = len(seenBy)\n\t}\n", New: "\thops := max(len(path), len(seenBy))\n"},
 				{File: "internal/flood/flood.go", Old: "\tif len(cidrEntries) > 0 {\n\t\tf.routeMgr.ProcessRouteAdvertise(fromPeer, originAgent, sequence, cidrEntries, path, encPath)\n\t}\n", New: "\tf.storeCIDR(fromPeer, originAgent, sequence, cidrEntries, path, encPath)\n"},
 				{File: "internal/flood/flood.go", Old: "// HandleRouteWithdraw processes an incoming ROUTE_WITHDRAW frame.", New: "func (f *Flooder) storeCIDR(from, origin identity.AgentID, seq uint64, entries []routing.RouteEntry, path []identity.AgentID, enc *protocol.EncryptedData) {\n\tif len(entries) > 0 {\n\t\tf.routeMgr.ProcessRouteAdvertise(from, origin, seq, entries, path, enc)\n\t}\n}\n\n// HandleRouteWithdraw processes an incoming ROUTE_WITHDRAW frame."},
+			}},
+			{Name: "hop count taken from the seen-by list, path only as fallback (seed C15-a)", ExpectRule: "C15.R2", Edits: []Edit{
+				{File: "internal/flood/flood.go", Old: "\thops := len(path)\n\tif len(seenBy) > hops {\n\t\thops = len(seenBy)\n\t}\n", New: "\thops := len(seenBy)\n\tif hops == 0 {\n\t\thops = len(path)\n\t}\n"},
+			}},
+			{Name: "hop count is the smaller of path and seen-by length", ExpectRule: "C15.R2", Edits: []Edit{
+				{File: "internal/flood/flood.go", Old: "\thops := len(path)\n\tif len(seenBy) > hops {\n\t\thops = len(seenBy)\n\t}\n", New: "\thops := min(len(path), len(seenBy))\n"},
+			}},
+			{Name: "hop count is the seen-by length only", ExpectRule: "C15.R2", Edits: []Edit{
+				{File: "internal/flood/flood.go", Old: "\thops := len(path)\n\tif len(seenBy) > hops {\n\t\thops = len(seenBy)\n\t}\n", New: "\thops := len(seenBy)\n\t_ = path\n"},
+			}},
+			{Name: "limit enforced only for announcements that were not replayed", ExpectRule: "C15.R2", Edits: []Edit{
+				{File: "internal/flood/flood.go", Old: "\tif f.cfg.MaxHops > 0 && hops > f.cfg.MaxHops {", New: "\tif f.cfg.MaxHops > 0 && len(seenBy) > 1 && hops > f.cfg.MaxHops {"},
+			}},
+			{Name: "CIDR entry refreshed in place keeps a stale shorter path (seed C15-b)", ExpectRule: "C15.R3", ExpectKey: "(*routing.Table).AddRoute", Edits: []Edit{
+				{File: "internal/routing/table.go", Old: "\t\t\t\tcloned := route.Clone()\n\t\t\t\tcloned.LastUpdate = now\n\t\t\t\tt.routes[key][i] = cloned\n", New: "\t\t\t\tif r.NextHop == route.NextHop {\n\t\t\t\t\tr.Metric = route.Metric\n\t\t\t\t\tr.Sequence = route.Sequence\n\t\t\t\t\tr.LastUpdate = now\n\t\t\t\t} else {\n\t\t\t\t\tcloned := route.Clone()\n\t\t\t\t\tcloned.LastUpdate = now\n\t\t\t\t\tt.routes[key][i] = cloned\n\t\t\t\t}\n"},
+			}},
+			{Name: "rewrite: path length alone as hop count", Edits: []Edit{
+				{File: "internal/flood/flood.go", Old: "\thops := len(path)\n\tif len(seenBy) > hops {\n\t\thops = len(seenBy)\n\t}\n", New: "\thops := len(path)\n"},
 			}},
 			{Name: "rewrite: swapped operands, negated, stricter boundary", Edits: []Edit{
 				{File: "internal/flood/flood.go", Old: "\tif f.cfg.MaxHops > 0 && hops > f.cfg.MaxHops {", New: "\tif limit := f.cfg.MaxHops; !(limit <= 0) && !(limit >= hops) {"},
@@ -420,8 +440,307 @@ func (e *c15Eval) summary(fn *ssa.Function) int {
 	return res
 }
 
+// ---------------------------------------------------------------- concrete evaluation (round 2)
+
+// c15Val is a known integer or boolean.
+type c15Val struct {
+	i int64
+	b bool
+	k int // 0 unknown, 1 int, 2 bool
+}
+
+// c15Conc executes the entry point abstractly for one concrete announcement: path length P,
+// seen-by length S, configured limit L. Branch conditions over these three numbers (through
+// locals, phis, conversions, arithmetic with constants, min/max and repository helpers) are
+// evaluated; every other condition forks. It is path-sensitive for the phis it can evaluate, so
+// `hops := len(seenBy); if hops == 0 { hops = len(path) }` and `max(len(path), len(seenBy))`
+// are told apart.
+type c15Conc struct {
+	cx      *c11Flood
+	taint   *c15Taint
+	handler *ssa.Function
+	L, P, S int64
+	depth   int
+}
+
+type c15Frame struct {
+	fn    *ssa.Function
+	ints  map[*ssa.Parameter]int64
+	lists map[*ssa.Parameter]int // 1 = path-like, 2 = received seen-by list
+}
+
+func (e *c15Conc) listClass(v ssa.Value, fr *c15Frame) int {
+	for i := 0; i < 6; i++ {
+		switch x := v.(type) {
+		case *ssa.ChangeType:
+			v = x.X
+			continue
+		case *ssa.Parameter:
+			if c, ok := fr.lists[x]; ok {
+				return c
+			}
+		}
+		break
+	}
+	if !c11IsAgentList(e.cx, v.Type()) {
+		return 0
+	}
+	if fr.fn == e.handler && c11RecvList(e.cx, v, e.handler) {
+		return 2
+	}
+	return 1
+}
+
+func (e *c15Conc) evalInt(v ssa.Value, fr *c15Frame, env map[*ssa.Phi]c15Val) (int64, bool) {
+	if e.taint.vals[v] {
+		return e.L, true
+	}
+	switch x := v.(type) {
+	case *ssa.Const:
+		return kit.ConstInt(x)
+	case *ssa.Convert:
+		return e.evalInt(x.X, fr, env)
+	case *ssa.ChangeType:
+		return e.evalInt(x.X, fr, env)
+	case *ssa.Parameter:
+		if k, ok := fr.ints[x]; ok {
+			return k, true
+		}
+	case *ssa.Phi:
+		if val, ok := env[x]; ok && val.k == 1 {
+			return val.i, true
+		}
+	case *ssa.BinOp:
+		a, ok1 := e.evalInt(x.X, fr, env)
+		b, ok2 := e.evalInt(x.Y, fr, env)
+		if !ok1 || !ok2 {
+			return 0, false
+		}
+		switch x.Op {
+		case token.ADD:
+			return a + b, true
+		case token.SUB:
+			return a - b, true
+		case token.MUL:
+			return a * b, true
+		case token.QUO:
+			if b != 0 {
+				return a / b, true
+			}
+		}
+	case *ssa.Call:
+		cal := kit.CalleeOf(x)
+		switch cal.Built {
+		case "len":
+			switch e.listClass(x.Call.Args[0], fr) {
+			case 1:
+				return e.P, true
+			case 2:
+				return e.S, true
+			}
+		case "max", "min":
+			var res int64
+			for i, a := range x.Call.Args {
+				k, ok := e.evalInt(a, fr, env)
+				if !ok {
+					return 0, false
+				}
+				if i == 0 || (cal.Built == "max" && k > res) || (cal.Built == "min" && k < res) {
+					res = k
+				}
+			}
+			return res, len(x.Call.Args) > 0
+		}
+	}
+	return 0, false
+}
+
+func (e *c15Conc) evalBool(v ssa.Value, fr *c15Frame, env map[*ssa.Phi]c15Val) (bool, bool) {
+	c, pol := c11Norm(v, true)
+	switch x := c.(type) {
+	case *ssa.Const:
+		if b, ok := kit.ConstBool(x); ok {
+			return b == pol, true
+		}
+	case *ssa.Phi:
+		if val, ok := env[x]; ok && val.k == 2 {
+			return val.b == pol, true
+		}
+	case *ssa.BinOp:
+		switch x.Op {
+		case token.LSS, token.LEQ, token.GTR, token.GEQ, token.EQL, token.NEQ:
+			a, ok1 := e.evalInt(x.X, fr, env)
+			b, ok2 := e.evalInt(x.Y, fr, env)
+			if ok1 && ok2 {
+				return c15Cmp(x.Op, a, b) == pol, true
+			}
+		}
+	case *ssa.Call:
+		cal := kit.CalleeOf(x)
+		if cal.Static == nil || cal.Static.Blocks == nil || !kit.IsRepoPkg(cal.Pkg) || e.depth >= 3 {
+			return false, false
+		}
+		rs := cal.Static.Signature.Results()
+		if rs.Len() != 1 || !types.Identical(rs.At(0).Type().Underlying(), types.Typ[types.Bool]) {
+			return false, false
+		}
+		// bind the callee's parameters
+		nf := &c15Frame{fn: cal.Static, ints: map[*ssa.Parameter]int64{}, lists: map[*ssa.Parameter]int{}}
+		for i, prm := range cal.Static.Params {
+			if i >= len(x.Call.Args) {
+				break
+			}
+			a := x.Call.Args[i]
+			if k, ok := e.evalInt(a, fr, env); ok {
+				nf.ints[prm] = k
+			} else if cl := e.listClass(a, fr); cl != 0 {
+				nf.lists[prm] = cl
+			}
+		}
+		e.depth++
+		_, rets := e.run(nf)
+		e.depth--
+		if len(rets) == 1 {
+			for b := range rets {
+				return b == pol, true
+			}
+		}
+	}
+	return false, false
+}
+
+// run explores fn from its entry; returns the reachable blocks and, for bool functions, the set
+// of values it can return (an undecidable return value contributes both).
+func (e *c15Conc) run(fr *c15Frame) (map[*ssa.BasicBlock]bool, map[bool]bool) {
+	reached := map[*ssa.BasicBlock]bool{}
+	rets := map[bool]bool{}
+	fn := fr.fn
+	if len(fn.Blocks) == 0 {
+		return reached, rets
+	}
+	type state struct {
+		b   *ssa.BasicBlock
+		env map[*ssa.Phi]c15Val
+	}
+	keyOf := func(st state) string {
+		var parts []string
+		for ph, v := range st.env {
+			parts = append(parts, fmt.Sprintf("%s=%d/%v/%d", ph.Name(), v.i, v.b, v.k))
+		}
+		sort.Strings(parts)
+		return fmt.Sprintf("%d|%s", st.b.Index, strings.Join(parts, ","))
+	}
+	seen := map[string]bool{}
+	work := []state{{fn.Blocks[0], map[*ssa.Phi]c15Val{}}}
+	steps := 0
+	for len(work) > 0 && steps < 20000 {
+		steps++
+		st := work[len(work)-1]
+		work = work[:len(work)-1]
+		k := keyOf(st)
+		if seen[k] {
+			continue
+		}
+		seen[k] = true
+		reached[st.b] = true
+		n := len(st.b.Instrs)
+		if n == 0 {
+			continue
+		}
+		enter := func(succ *ssa.BasicBlock) {
+			env := map[*ssa.Phi]c15Val{}
+			for ph, v := range st.env {
+				env[ph] = v
+			}
+			idx := -1
+			for i, pr := range succ.Preds {
+				if pr == st.b {
+					idx = i
+				}
+			}
+			// evaluate the phis of succ simultaneously from the old environment
+			upd := map[*ssa.Phi]c15Val{}
+			for _, in := range succ.Instrs {
+				ph, ok := in.(*ssa.Phi)
+				if !ok {
+					break
+				}
+				if idx < 0 || idx >= len(ph.Edges) {
+					continue
+				}
+				ed := ph.Edges[idx]
+				if b, ok := ph.Type().Underlying().(*types.Basic); ok && b.Kind() == types.Bool {
+					if v, known := e.evalBool(ed, fr, st.env); known {
+						upd[ph] = c15Val{b: v, k: 2}
+						continue
+					}
+				} else if v, known := e.evalInt(ed, fr, st.env); known && c15HopRelated(e, ed, fr) {
+					upd[ph] = c15Val{i: v, k: 1}
+					continue
+				}
+				upd[ph] = c15Val{}
+			}
+			for ph, v := range upd {
+				if v.k == 0 {
+					delete(env, ph)
+				} else {
+					env[ph] = v
+				}
+			}
+			work = append(work, state{succ, env})
+		}
+		switch last := st.b.Instrs[n-1].(type) {
+		case *ssa.If:
+			if v, known := e.evalBool(last.Cond, fr, st.env); known {
+				if v {
+					enter(st.b.Succs[0])
+				} else {
+					enter(st.b.Succs[1])
+				}
+			} else {
+				enter(st.b.Succs[0])
+				enter(st.b.Succs[1])
+			}
+		case *ssa.Return:
+			if st.b != fn.Recover && len(last.Results) == 1 {
+				if v, known := e.evalBool(kit.ReturnResult(last, 0), fr, st.env); known {
+					rets[v] = true
+				} else {
+					rets[true], rets[false] = true, true
+				}
+			}
+		default:
+			for _, sc := range st.b.Succs {
+				enter(sc)
+			}
+		}
+	}
+	return reached, rets
+}
+
+// c15HopRelated: the expression involves a list length or the limit (loop counters and other
+// integers are not tracked, which keeps the exploration finite).
+func c15HopRelated(e *c15Conc, v ssa.Value, fr *c15Frame) bool {
+	hit := false
+	g4Operands(v, func(x ssa.Value) {
+		if e.taint.vals[x] {
+			hit = true
+		}
+		if c, ok := x.(*ssa.Call); ok && kit.CalleeOf(c).Built == "len" && len(c.Call.Args) == 1 && e.listClass(c.Call.Args[0], fr) != 0 {
+			hit = true
+		}
+		if prm, ok := x.(*ssa.Parameter); ok {
+			if _, bound := fr.ints[prm]; bound {
+				hit = true
+			}
+		}
+	}, nil)
+	return hit
+}
+
 func runC15(p *kit.Program, r *kit.Report) {
 	r.Rule("C15.R1", "the configured hop limit config.RoutingConfig.MaxHops flows (assignments, conversions, struct fields, call arguments) into code of internal/flood")
+	r.Rule("C15.R3", "the stored path that replays carry (the hop count across a full-table sync) is never left behind by an in-place refresh of a stored route record")
 	r.Rule("C15.R2", "in the receive entry point for route advertisements, no route store and no forward call is reachable when the comparisons of the announcement's hop count with the configured limit are evaluated for an over-limit announcement")
 	cx := newC11Flood(p, r)
 	if cx == nil {
@@ -506,10 +825,43 @@ func runC15(p *kit.Program, r *kit.Report) {
 		}
 	}
 	r.Count("hop_limit_branches_evaluated", len(used))
+	// concrete scenarios: a flooded copy (path and seen-by list both limit+d long) and a copy that
+	// went through a full-table replay (path limit+d long, seen-by list restarted at one entry)
+	badWhy := map[string]string{}
+	nScen := 0
+	for _, L := range []int64{1, 16, 255} {
+		for _, delta := range []int64{1, 2, 1000} {
+			for _, replay := range []bool{false, true} {
+				nScen++
+				ce := &c15Conc{cx: cx, taint: taint, handler: handler, L: L, P: L + delta, S: L + delta}
+				what := fmt.Sprintf("a flooded announcement with a path and a seen-by list of limit+%d entries (limit %d)", delta, L)
+				if replay {
+					ce.S = 1
+					what = fmt.Sprintf("an announcement relayed by a full-table replay: path of limit+%d entries, seen-by list restarted at 1 entry (limit %d)", delta, L)
+				}
+				blocks, _ := ce.run(&c15Frame{fn: handler, ints: map[*ssa.Parameter]int64{}, lists: map[*ssa.Parameter]int{}})
+				for _, s := range sinks {
+					if blocks[s.in.Block()] {
+						if _, dup := badWhy[s.name]; !dup {
+							badWhy[s.name] = what
+						}
+					}
+				}
+			}
+		}
+	}
+	r.Count("concrete_scenarios_evaluated", nScen)
 	for _, s := range sinks {
 		d, isBad := bad[s.name]
-		r.Decide(!isBad, "C15.R2", hn+" "+s.name+" within hop limit", p.Pos(s.in.Pos()),
-			"unreachable for an announcement that is over the configured hop limit",
-			fmt.Sprintf("reachable for an announcement that has travelled limit+%d hops: routes are stored / forwarded beyond routing.max_hops", d))
+		why, isBad2 := badWhy[s.name]
+		msg := fmt.Sprintf("reachable for an announcement that has travelled limit+%d hops: routes are stored / forwarded beyond routing.max_hops", d)
+		if !isBad && isBad2 {
+			msg = "reachable for " + why + ": the hop count compared with the limit is not one that survives a replay (it must not be smaller than the path length), so routes are stored / forwarded beyond routing.max_hops"
+		}
+		r.Decide(!isBad && !isBad2, "C15.R2", hn+" "+s.name+" within hop limit", p.Pos(s.in.Pos()),
+			"unreachable for an announcement that is over the configured hop limit (flooded or replayed)", msg)
 	}
+
+	// ---------------- R3
+	g4ReportInPlace(p, r, "C15.R3", "the stored path is what SendFullTable prepends the local id to; a path kept from an older, shorter advertisement understates the distance, so agents beyond routing.max_hops accept, store and forward the replayed routes")
 }
